@@ -33,6 +33,15 @@ def labelStr : Label → String
   | .int i => "int:" ++ toString i
   | .text s => "t:" ++ hex s
 
+def getMapOp (v : Option GoVal) : String :=
+  match getMap v with
+  | .ok none => "ok nil"
+  | .ok (some ls) =>
+    let ks := (ls.map labelStr).mergeSort (fun a b => decide (a < b) || a == b)
+    if ks.isEmpty then "ok empty" else "ok " ++ String.intercalate "," ks
+  | .err _ => "err"
+  | .panic s => "panic " ++ s
+
 def dispatch (op : String) (args : List String) : Option String :=
   match op with
   | "map.unmarshal" => some (opUnmarshal args)
@@ -43,6 +52,7 @@ def dispatch (op : String) (args : List String) : Option String :=
   | "map.getbytes" => some (match present args with | some v => resStr hexOpt (getBytes v) | none => "bad-op")
   | "map.getbool" => some (match present args with | some v => resStr toString (getBool v) | none => "bad-op")
   | "map.getstring" => some (match present args with | some v => resStr hex (getString v) | none => "bad-op")
+  | "map.getmap" => some (match present args with | some v => getMapOp v | none => "bad-op")
   | "map.set" => some (match parseWhole args with | some v => resStr labelStr (checkKey v) | none => "bad-op")
   | _ => none
 
